@@ -202,6 +202,30 @@ def do_posterior(world, do, yvars):
     return srt, m / m.sum()
 
 
+def _explained_by_default_adjustment(world, do, ys, got):
+    """sum_z P(y | do-values overridden by z, z) P(z), z over the union of the do-variables' parents (what the engine documents
+    as its default), normalised - computed on the reference joint."""
+    try:
+        ref = RefJoint.from_bn(world)
+        card = world["card"]
+        zs = sorted(set(p for x in do for p in world["parents"][x]))
+        if not zs:
+            return False
+        pz = ref.posterior(zs, {})
+        acc = None
+        for comb in itertools.product(*[range(card[z]) for z in zs]):
+            ev = dict(do)
+            ev.update(dict(zip(zs, comb)))
+            if any(y in ev for y in ys) or ref.prob_evidence(ev) <= 0:
+                return False
+            term = ref.posterior(sorted(ys), ev) * float(pz[tuple(comb)])
+            acc = term if acc is None else acc + term
+        acc = acc / acc.sum()
+        return acc.shape == np.asarray(got).shape and close(np.asarray(got), acc, atol=1e-9, rtol=1e-6)
+    except Exception:
+        return False
+
+
 def execute(case, ctx):
     from pgmpy.inference import CausalInference
 
@@ -387,7 +411,9 @@ def _query(ctx, op, world, names, model, ci, edges, lat, refused):
     srt, want = do_posterior(world, do, ys)
     if not close(arr, want, atol=1e-9, rtol=1e-6):
         sig = f"{PROP}:value:query"
-        if len(do) > 1 and adj is None:
+        if len(do) > 1 and adj is None and _explained_by_default_adjustment(world, do, ys, arr):
+            # explained-by predicate of the open finding: the answer IS the documented adjustment formula over the union of the
+            # do-variables' parents, which is not a valid adjustment set for this joint intervention; any other deviation alarms
             sig = f"{PROP}:value:query_multi_do_default_adjustment"
         ctx.fail("truncated_factorisation", sig, {"do": sorted(do.items()), "y": ys, "adj": adj, "algo": algo, "got": arr.round(6).tolist(), "want": want.round(6).tolist(),
                                                   "parents": world["parents"], "latents": sorted(lat)})
